@@ -6,6 +6,12 @@ ROOT = os.path.dirname(os.path.dirname(os.path.abspath(__file__)))
 
 # id -> (level, technique, level text, level note, design ref)
 CHECKS = {
+    "C08": ("exploration", "runtime monitoring: differential oracle — for random type systems over every implemented representation strategy and generated inhabitants, the read-out monitor compares the type-level view and the representation view of nodes built through both builders with a reference model of the strategy relation; codec round trips through the representation builder compared byte-for-byte and value-for-value",
+            "Held on the type systems and values observed for the reflection binding (inferred Go types); generated code runs the same monitor inside C13. Sampling of type systems (non-cyclic, depth <= 4) and values.",
+            "Trusted: internal/ref/schema (strategy relation written from the IPLD Schema specification), internal/obs. Tuple structs only with trailing absents.", "DESIGN.md §2 C08"),
+    "C09": ("exploration", "runtime monitoring: differential oracle — conforming values and random local mutations of them (type level and representation level, directly and through dag-cbor(relaxed)/dag-json) are fed to typed builders; accept/reject, error-not-panic and the accepted value are compared with a reference conformance decision",
+            "Held on the inputs observed for the reflection binding; generated code runs the same monitor inside C13. Sampling.",
+            "Trusted: internal/ref/schema ParseType/ParseRepr.", "DESIGN.md §2 C09"),
     "C16": ("exploration", "runtime monitoring: model-based monitor of transform sequences — each FocusedTransform result, callback argument, error outcome, set of blocks written and the graph reloaded from the new root are compared with a reference functional update over the abstract graph; the input tree is re-read after every step; WalkTransforming results compared with the reference selector walk's matches on link-free trees; a probe records the walking transform across a link",
             "Held on the transform sequences observed (existing/new/append/delete targets, through links, with unavailable blocks) apart from one known finding (WalkTransforming inlines linked blocks). Sampling.",
             "Trusted: the reference update in internal/props/c16.go (documented FocusedTransform semantics), internal/ref/sel, internal/ref/cbor.", "DESIGN.md §2 C16"),
